@@ -45,6 +45,9 @@ FRAG_BOUND = 2        # non-last command / data fragments per incoming message (
 PP_SECOND = ('P:c3n', 'P:rel_rq', 'P:abort_u', 'P:rel_rp', 'P:d2')
 
 
+USER_PDATA = {'U:pdata1': ('pdata', 1), 'U:pdata3': ('pdata', 3), 'U:pdata1x2': ('pdata_same',)}
+
+
 class Abs(object):
     """Abstract environment state that accompanies a history: model state, reassembly progress of the
     incoming message, half-delivered PDU, and the mapping of abstract events to concrete ones."""
@@ -88,6 +91,7 @@ class Abs(object):
                             if self.ncmd < FRAG_BOUND:
                                 out.append('P:c1')
                             out += ['P:c3n', 'P:c3d']
+                            out.append('P:c3d2')         # last command fragment and the whole data set as two PDVs of ONE P-DATA-TF
                         else:
                             if self.ndat < FRAG_BOUND:
                                 out.append('P:d0')
@@ -120,7 +124,7 @@ class Abs(object):
             if self.remaining is not None and self.remaining > 4.5:
                 out.append('tick4')
             out.append('expire')
-        for name, ev in (('U:assoc_rq', 'Evt1'), ('U:accept', 'Evt7'), ('U:reject', 'Evt8'), ('U:pdata1', 'Evt9'), ('U:pdata3', 'Evt9'),
+        for name, ev in (('U:assoc_rq', 'Evt1'), ('U:accept', 'Evt7'), ('U:reject', 'Evt8'), ('U:pdata1', 'Evt9'), ('U:pdata3', 'Evt9'), ('U:pdata1x2', 'Evt9'),
                          ('U:release_rq', 'Evt11'), ('U:release_rp', 'Evt14'), ('U:abort', 'Evt15')):
             if ev in row:
                 out.append(name)
@@ -182,9 +186,15 @@ class Abs(object):
         elif a == 'P:rest':
             conc, mevs = ('bytes', REL[7:]), ['Evt12']
             self.half = False
-        elif a in ('P:c1', 'P:c3n', 'P:c3d', 'P:d0', 'P:d2', 'P:d2e'):
+        elif a in ('P:c1', 'P:c3n', 'P:c3d', 'P:c3d2', 'P:d0', 'P:d2', 'P:d2e'):
             established = sta in (6, 7)
-            if a == 'P:c1':
+            if a == 'P:c3d2':
+                from .. import ref_pdu, pdugen
+                full = cmd(True)
+                conc = ('pdu', ref_pdu.build(pdugen.pdata([(3, b'\x03' + full[13 * self.ncmd:]), (3, b'\x02' + DATASET)])))
+                mevs = ['Evt10c']
+                self.rx, self.ncmd, self.ndat = 'idle', 0, 0
+            elif a == 'P:c1':
                 piece = cmd(True)[13 * self.ncmd:13 * self.ncmd + 13]
                 conc = ('pdu', e2.pdata(3, 1, piece))
                 mevs = ['Evt10p']
@@ -235,6 +245,9 @@ class Abs(object):
             conc, mevs = ('user', ('pdata', 1)), ['Evt9']
         elif a == 'U:pdata3':
             conc, mevs = ('user', ('pdata', 3)), ['Evt9', 'Evt9', 'Evt9']
+        elif a == 'U:pdata1x2':
+            # the same P-DATA-TF PDU object handed over twice (a user that repeats a message keeps no copy)
+            conc, mevs = ('user', ('pdata_same',)), ['Evt9', 'Evt9']
         elif a == 'U:release_rq':
             conc, mevs = ('user', ('release_rq',)), ['Evt11']
         elif a == 'U:release_rp':
@@ -351,6 +364,12 @@ def check_history(role, hist, delta, deviations=None, mpl=16384):
             exp_ind = ['A-ABORT' if o[4:] == 'A-P-ABORT' else o[4:] for o in outs if o.startswith('ind:')]
             if [w[0] for w in wire] != exp_wire:
                 viol.append((tag + ':wire', 'event %s in Sta%s: wire %r, model %r (%s)' % (aev, prev_state, wire, exp_wire, where)))
+            elif aev in USER_PDATA and 'P-DATA-TF' in exp_wire:
+                # what goes out is what the user handed over
+                want = e2.summarize_wire(b''.join(p_.encode() for p_ in e2.make_primitive(USER_PDATA[aev])))
+                got_pd = [w for w in wire if w[0] == 'P-DATA-TF']
+                if len(got_pd) == len(want) and got_pd != want:
+                    viol.append((tag + ':pdata-content', 'event %s in Sta%s: the user handed over %r, on the wire %r (%s)' % (aev, prev_state, want, got_pd, where)))
             elif 'send:A-ABORT(provider)' in outs and wire and wire[-1][1] != 2:
                 viol.append((tag + ':abort-source', 'provider-initiated A-ABORT sent with source %r (%s)' % (wire[-1][1], where)))
             elif aev == 'U:abort' and wire and wire[0][1:] != (0, 3):
@@ -364,10 +383,10 @@ def check_history(role, hist, delta, deviations=None, mpl=16384):
                     viol.append((tag + ':abort-indication-fields', 'received A-ABORT (2,1) indicated as %r (%s)' % (st['inds'][0], where)))
                 if aev.startswith('P:rj') and st['inds'] and st['inds'][0][0] == 'A-ASSOCIATE-RJ' and st['inds'][0][1:] != (2, 1, 3):
                     viol.append((tag + ':rj-indication-fields', 'received RJ (2,1,3) indicated as %r (%s)' % (st['inds'][0], where)))
-                comps = [c for c in (aev[3:] if aev.startswith('PP:') else aev).replace('+close', '').split(',') if c in ('P:c3n', 'P:d2', 'P:d2e')]
+                comps = [c for c in (aev[3:] if aev.startswith('PP:') else aev).replace('+close', '').split(',') if c in ('P:c3n', 'P:d2', 'P:d2e', 'P:c3d2')]
                 for k, x in enumerate([y for y in st['inds'] if y[0] == 'DIMSE']):
                     base = comps[k] if k < len(comps) else None
-                    want_len = {'P:c3n': None, 'P:d2': len(DATASET)}.get(base, 'any')
+                    want_len = {'P:c3n': None, 'P:d2': len(DATASET), 'P:c3d2': len(DATASET)}.get(base, 'any')
                     if base == 'P:d2e':
                         want_len = 'any'
                         if x[3] not in (7, 14, 21, 28):
